@@ -11,6 +11,7 @@ import (
 	"path"
 	"slices"
 	"strings"
+	"sync"
 	"time"
 
 	"github.com/go-git/go-git/v5"
@@ -79,6 +80,9 @@ func (c *gitCommit) History() iter.Seq[Revision] {
 }
 
 type gitRepository struct {
+	// m serializes fetches and checkouts: a go-git repository and its single work tree are not safe for concurrent
+	// use, and the resolver fetches several revisions of one repository at the same time.
+	m sync.Mutex
 	r *git.Repository
 
 	dir           string
@@ -233,6 +237,9 @@ func (r *gitRepository) GetRevision(ctx context.Context, id string) (Revision, e
 		return nil, fmt.Errorf("invalid revision %q", id)
 	}
 
+	r.m.Lock()
+	defer r.m.Unlock()
+
 	// Check cached refs for this revision.
 	var ref string
 	for r, hash := range r.refs {
@@ -273,6 +280,10 @@ func (r *gitRepository) GetRevision(ctx context.Context, id string) (Revision, e
 
 func (r *gitRepository) FetchRevision(ctx context.Context, projectPath string, revision Revision, destDir string) error {
 	commit := revision.(*gitCommit)
+
+	// The checked-out tree must stay in place until it has been copied.
+	r.m.Lock()
+	defer r.m.Unlock()
 
 	tree, err := r.r.Worktree()
 	if err != nil {
